@@ -61,7 +61,8 @@ def expected : List Gen.FnFact := [
   { name := "VM.run", recovers := true, unprot := [".btErr"], stages := [], bareErr := 0 },
   { name := "VM.btErr", recovers := false, unprot := [".String"], stages := [], bareErr := 0 },
   { name := "VM.codeDump", recovers := false, unprot := [".String"], stages := [], bareErr := 0 },
-  { name := "VM.treeDump", recovers := false, unprot := [".String", ".Write"], stages := [], bareErr := 0 },
+  { name := "VM.treeDump", recovers := false, unprot := [".String", ".Write", "writeTree"], stages := [], bareErr := 0 },
+  { name := "writeTree", recovers := false, unprot := ["writeTree"], stages := [], bareErr := 0 },   -- (depth-bounded recursion)
   { name := "parse", recovers := true, unprot := [], stages := [], bareErr := 0 },
   { name := "compiler.run", recovers := true, unprot := [], stages := [], bareErr := 0 },
   { name := "compilePkgs", recovers := false, unprot := [".run", "newLookup"], stages := [], bareErr := 1 },
